@@ -138,15 +138,23 @@ def run(chk):
     found = set()
     cases = []
     # TrimmedMean: all admissible b for the generated m, corrupted subsets
-    for _ in range(45 if q else 700):
-        J, cat = A.gen_matrix(rng, cat=rng.choice(["generic", "dup_rows", "bad_scale", "generic", "tall"]),
+    for it in range(45 if q else 700):
+        # the first rounds are not left to chance: constant columns / identical rows and three-letter alphabets
+        # (every order statistic tied), then the random categories
+        forced = ["const_col", "few_values", "const_col", "few_values", "const_col", "few_values"][it] if it < 6 else None
+        J, cat = A.gen_matrix(rng, cat=forced or rng.choice(["generic", "dup_rows", "bad_scale", "generic", "tall",
+                                                              "const_col", "few_values"]),
                               mmax=7, nmax=5)
         if len(J) < 3 and rng.random() < 0.8:
             J = J + [[x + 1 for x in J[0]], [x - 2 for x in J[0]], [2 * x for x in J[0]]]
         m = len(J)
         bmax = (m - 1) // 2
         b = rng.randint(1, bmax) if bmax >= 1 and rng.random() < 0.8 else rng.randint(0, bmax)
+        if forced and bmax >= 1:
+            b = [1, bmax][it % 2]
         ncor = b if rng.random() < 0.7 else rng.randint(0, b)
+        if forced and it < 4:
+            ncor = 0                    # the uncorrupted tied matrix itself
         rows = sorted(rng.sample(range(m), ncor))
         Jc = corrupt(rng, J, rows)
         cases.append({"name": "TrimmedMean", "params": {"b": b}, "J": Jc, "cat": cat + f"+corrupt{ncor}",
